@@ -26,6 +26,9 @@ CHECKS = {
  "C08": dict(technique="metamorphic property testing (proptest): observable snapshot invariant under permutations of the per-file analysis order",
              text="Generated-input search over workspaces with colliding names; oracle is equality of the full observable snapshot across analysis orders on fresh indexes. Exploration only.",
              note="trusted: the claim (read from scanner.rs) that the scan's schedule reaches the index only through per-file analysis order and DashMap-op interleaving (the latter is C09's)", ref="DESIGN.md 4 C08", engine="vengine"),
+ "C03": dict(technique="differential property testing (proptest grammar generator) against an extraction done with CPython's ast/tokenize; plus a real-world corpus as false-alarm guard",
+             text="Generated-input search over pytest-style modules; oracle is an independent extractor written on CPython's own parser applying the documented recognisers, compared record by record. Exploration only.",
+             note="trusted: CPython 3.11 ast/tokenize, oracle/pyoracle.py's reading of the documented forms", ref="DESIGN.md 4 C03", engine="vengine"),
 }
 PENDING = {
 }
